@@ -39,13 +39,14 @@ type TierCfg struct {
 }
 
 type RunSpec struct {
-	Name     string   `json:"name"`
-	Pkg      string   `json:"pkg"`
-	Fn       string   `json:"fn"`
-	Quick    TierCfg  `json:"quick"`
-	Thorough *TierCfg `json:"thorough"`
-	Reach    []string `json:"reach"` // markers that must be witnessed
-	Bounds   string   `json:"bounds"`
+	Name        string   `json:"name"`
+	Pkg         string   `json:"pkg"`
+	Fn          string   `json:"fn"`
+	Quick       TierCfg  `json:"quick"`
+	Thorough    *TierCfg `json:"thorough"`
+	Reach       []string `json:"reach"` // markers that must be witnessed
+	Bounds      string   `json:"bounds"`
+	NoInitExtra bool     `json:"no_init_extra"`
 }
 
 type Plan struct {
@@ -189,7 +190,7 @@ func cmdCheck(args []string) int {
 		}
 		cfg := Config{Property: plan.Property, Tier: *tier, Seed: seed, Pkg: r.Pkg, Harness: r.Fn, Workers: *workers,
 			BranchMs: tc.BranchMs, AssertMs: tc.AssertMs, MaxSteps: tc.MaxSteps, MaxPaths: tc.MaxPaths, Ascii7: tc.Ascii7,
-			SitePrefix: plan.SitePrefix, Params: map[string]int{}, SymMapOrder: tc.SymMapOrder, Debug: *debug, Preempt: -1, Delays: -1, OneShotFirst: tc.OneShot, CrossCheck: tc.CrossCheck, Race: tc.Race}
+			SitePrefix: plan.SitePrefix, Params: map[string]int{}, SymMapOrder: tc.SymMapOrder, Debug: *debug, Preempt: -1, Delays: -1, NoInitExtra: r.NoInitExtra, OneShotFirst: tc.OneShot, CrossCheck: tc.CrossCheck, Race: tc.Race}
 		for k, v := range tc.Params {
 			cfg.Params[k] = v
 		}
